@@ -72,6 +72,7 @@ class Ctx:
         c.record = True
         c.out = member.assignment.target.name
         c.wf = {}
+        c.seg = {}
         c.reads = {}
         c.invariants = []
         c.unsupported = None
@@ -121,6 +122,7 @@ def setup(ctx):
                 st.path += [P[0] == 0, nn == P[npos], nn >= 0, npos >= 0]
                 ctx.wf[pos] = ("pos", P, npos, nn)
                 ctx.wf[crd] = ("crd", C, nn, d)
+                ctx.seg[crd] = (pos, P, npos)
                 ctx.reads[pos] = [IntVal(0), npos]
                 npos = nn
         # the value array: exactly the stored positions (for the output of a compute kernel one
@@ -293,7 +295,69 @@ def modified(stmt, acc):
     return acc
 
 
-def candidates(st, mods, ctx):
+def crd_facts(ctx, st, arr, idxs):
+    """Well-formedness of an input crd array instantiated at the given index terms: entries in range, and strictly
+    increasing inside one segment [pos[q], pos[q+1]) for every q at which pos has been read."""
+    if arr not in ctx.wf or arr not in st.aint or not st.aint[arr].eq(ctx.wf[arr][1]):
+        return []
+    _, C, n, d = ctx.wf[arr]
+    posname, P, npos = ctx.seg[arr]
+    out = []
+    for j in idxs:
+        out.append(Implies(And(0 <= j, j < n), And(0 <= C[j], C[j] < d)))
+    qs = list(ctx.reads.get(posname, []))
+    for j in idxs:
+        for j2 in idxs:
+            if j.eq(j2):
+                continue
+            for q in qs:
+                out.append(Implies(And(0 <= q, q < npos, P[q] <= j, j < j2, j2 < P[q + 1]), C[j] < C[j2]))
+    return out
+
+
+def cursor_reads(body, st, ctx):
+    """(crd array, cursor variable, end variable) for every read X_crd[p] of an input level inside the loop body."""
+    found = []
+
+    def walk(e):
+        if isinstance(e, ir.ArrayIndex) and isinstance(e.target, ir.Variable) and isinstance(e.index, ir.Variable):
+            c, pv = e.target.name, e.index.name
+            if c in st.ptrs and isinstance(st.ptrs[c][0], str) and st.ptrs[c][0] in ctx.seg and pv in st.ints and (pv + "_end") in st.ints:
+                t = (st.ptrs[c][0], pv, pv + "_end")
+                if t not in found:
+                    found.append(t)
+        import dataclasses as _dc
+
+        if _dc.is_dataclass(e) and not isinstance(e, type):
+            for f in _dc.fields(e):
+                v = getattr(e, f.name)
+                if isinstance(v, list):
+                    for x in v:
+                        walk(x)
+                elif _dc.is_dataclass(v):
+                    walk(v)
+
+    walk(ctx.fn.body)  # every cursor of the kernel that is live here: a loop that does not read a level must still preserve its bound
+    return found
+
+
+def candidates(st, mods, ctx, body=None):
+    extra = []
+    if body is not None:
+        entry = dict(st.ints)
+        for n in sorted(entry):
+            if n in mods["vars"]:
+                extra.append((f"entry({n}) <= {n}", lambda s, n=n, e0=entry[n]: e0 <= s.ints[n]))
+        for arr, pv, pend in cursor_reads(body, st, ctx):
+            C = ctx.wf[arr][1]
+            for v in sorted(entry):
+                if v in mods["vars"] and v != pv and not v.endswith("_end") and not v.endswith("_capacity"):
+                    extra.append((f"{pv} < {pend} -> {v} <= {arr}[{pv}]",
+                                  lambda s, v=v, pv=pv, pend=pend, C=C: Implies(s.ints[pv] < s.ints[pend], s.ints[v] <= Select(C, s.ints[pv]))))
+    return extra + _candidates(st, mods, ctx)
+
+
+def _candidates(st, mods, ctx):
     ints = sorted(st.ints)
     terms = [(n, (lambda s, n=n: s.ints[n])) for n in ints]
     arrs = sorted({st.ptrs[p][0] for p in st.ptrs if st.ptrs[p][0] not in ("FIELD", "LEVEL", "TENSOR") and isinstance(st.ptrs[p][0], str)} & set(st.alen))
@@ -391,11 +455,24 @@ def measure(c, st, ctx):
 
 def run_loop(c, body, st, ctx):
     mods = modified(body, {"vars": set(), "realloc": set(), "stores": set()})
-    cands = candidates(st, mods, ctx)
+    cands = candidates(st, mods, ctx, body)
+    cursors = cursor_reads(body, st, ctx)
+
+    def facts(*states):
+        out = []
+        for arr, pv, _ in cursors:
+            idxs = []
+            for s_ in states:
+                if pv in s_.ints and not any(s_.ints[pv].eq(x) for x in idxs):
+                    idxs.append(s_.ints[pv])
+            out += crd_facts(ctx, states[0], arr, idxs)
+        return out
+
     while cands:
         sv = Solver()
         sv.set(timeout=8000)
         sv.add(*st.path)
+        sv.add(*facts(st))
         sv.add(Not(And([f(st) for _, f in cands])))
         r = sv.check()
         if r == unsat:
@@ -411,6 +488,7 @@ def run_loop(c, body, st, ctx):
         rounds += 1
         h = havoc(st, mods, ctx)
         h.path += [f(h) for _, f in cands]
+        h.path += facts(h)
         hb = h.copy()
         ctx.record = False
         _, cv = ev(c, hb, ctx)
@@ -423,6 +501,7 @@ def run_loop(c, body, st, ctx):
                 sv = Solver()
                 sv.set(timeout=8000)
                 sv.add(*l.path)
+                sv.add(*facts(h, l))
                 sv.add(Not(And([f(l) for _, f in live])))
                 r = sv.check()
                 if r == unsat:
@@ -450,12 +529,27 @@ def run_loop(c, body, st, ctx):
         if m0 is None:
             ctx.checks.append(("termination: loop condition has no recognised measure", [], BoolVal(False)))
         else:
-            for o in outs:
-                saved = ctx.record
-                ctx.record = False
-                m1 = measure(c, o, ctx)
-                ctx.record = saved
-                ctx.checks.append(("termination: measure decreases", list(o.path), And(m1 < m0, m0 > 0)))
+            saved = ctx.record
+            ctx.record = False
+            m1s = [measure(c, o, ctx) for o in outs]
+            ctx.record = saved
+            # one measure per loop: the condition-based one, or - when some path does not decrease it - that plus
+            # (bound - v) for every variable v the inferred invariants bound by a loop-invariant dimension
+            names = {n for n, _ in cands}
+            bounded = []
+            for n in sorted(names):
+                parts = n.split(" <= ") if " <= " in n and "->" not in n and "entry(" not in n else None
+                if parts and len(parts) == 2 and parts[0] in mods["vars"] and parts[1].endswith("_dim") and parts[1] not in mods["vars"] \
+                        and parts[0] in hb.ints and parts[1] in hb.ints and parts[0] not in [b[0] for b in bounded]:
+                    bounded.append((parts[0], parts[1]))
+            base_ok = all(valid(list(o.path), And(m1 < m0, m0 > 0), 4000) for o, m1 in zip(outs, m1s)) if bounded else True
+            for o, m1 in zip(outs, m1s):
+                if base_ok:
+                    ctx.checks.append(("termination: measure decreases", list(o.path) + facts(h, o), And(m1 < m0, m0 > 0)))
+                else:
+                    e0 = m0 + sum((hb.ints[u] - hb.ints[v] for v, u in bounded), IntVal(0))
+                    e1 = m1 + sum((o.ints[u] - o.ints[v] for v, u in bounded if v in o.ints and u in o.ints), IntVal(0))
+                    ctx.checks.append(("termination: measure decreases", list(o.path) + facts(h, o), And(e1 < e0, e0 > 0)))
     ex = h.copy()
     ctx.record = False
     _, cv = ev(c, ex, ctx)
